@@ -1,10 +1,11 @@
 \* C20 pipeline as coded at the pinned commit (unsupported encoding falls through to the rewrite): TLC must reject PassThroughIsIdentity.
 CONSTANTS
   UnsupportedRule = "rewrite"
+  ParseRule = "scripting"
   CspRule = "policylist"
   LengthRule = "set"
   EmitCases = FALSE
 INIT Init
 NEXT Next
-INVARIANTS TypeOK PassThroughIsIdentity HtmlGetsExactlyOneScript LengthMatchesBody EncodingHeaderDescribesBody
+INVARIANTS TypeOK PassThroughIsIdentity HtmlGetsExactlyOneScript DocumentOnlyAppendedTo LengthMatchesBody EncodingHeaderDescribesBody
 CHECK_DEADLOCK FALSE
